@@ -89,7 +89,9 @@ StepReply(st, r, e) ==
     ELSE
     LET rq == mm.pend[r.rid]
         lenient == e.kind = "T"        \* timer replies are sent after the key record may have been dropped
-        okBefore == r.val \in mm.cands \/ (lenient /\ r.val = <<>>)
+        \* st.agn: an earlier operation of this step was an open case (its result is adopted, not computed): the value
+        \* a later reply of the same step shows is then whatever that operation left - adopted as well
+        okBefore == r.val \in mm.cands \/ (lenient /\ r.val = <<>>) \/ st.agn
         \* a reply that shows the value the PREVIOUS operation of this step left (a waiter woken by an unlock):
         \* if it is the pipeline reading of the code as written, the deviation belongs to that operation (R2)
         prevPipe == st.applied > 0 /\ OpName(st.lastop) = "pipeline" /\ r.val = mm.coded
